@@ -582,6 +582,26 @@ impl HttpContext {
                 .map(ToOwned::to_owned);
         }
 
+        // RFC 9112 §6.3: a request whose Transfer-Encoding does not end in
+        // `chunked` cannot be framed reliably and is answered with 400. kawa
+        // only recognises a value that ends with the bytes `chunked`; any other
+        // Transfer-Encoding line (`chunked<HTAB>`, `identity`, ...) used to be
+        // forwarded while the framing fell back to Content-Length or to "no
+        // body", so a backend that trims or knows the coding read another
+        // message length than Sōzu.
+        if request.body_size != kawa::BodySize::Chunked
+            && request.blocks.iter().any(|block| {
+                matches!(block, kawa::Block::Header(header)
+                    if !header.is_elided()
+                        && compare_no_case(header.key.data(buf), b"transfer-encoding"))
+            })
+        {
+            request
+                .parsing_phase
+                .error("Transfer-Encoding is present but does not end in chunked".into());
+            return;
+        }
+
         // A request without Content-Length or Transfer-Encoding has no body
         // (RFC 9112 §6.3). kawa's H1 parser frames such a message as running
         // until the connection closes (`Empty` + `Body`), which is only right
